@@ -45,6 +45,8 @@
 #include <stdint.h>
 #include <stdbool.h>
 #include <inttypes.h>
+#include <signal.h>
+#include <unistd.h>
 
 #include "upipe/ubase.h"
 #include "upipe/umem.h"
@@ -591,8 +593,23 @@ static void check_key(const struct tdesc *t, const char *name)
         die("key: a shorthand type takes no name, a base type needs one:", t->tok);
 }
 
+/* A command of the code under test that does not return (e.g. a corrupted
+ * attribute chain walked for ever) must cost seconds, not the time-out of the
+ * whole batch: every command runs under an alarm; on expiry the process exits
+ * with status 5 WITHOUT a result line for that command, which the check reads
+ * as "this command hung" (results of earlier commands are already flushed). */
+static void on_alarm(int sig)
+{
+    (void)sig;
+    _exit(5);
+}
+
 int main(int argc, char **argv)
 {
+    unsigned alarm_s = 10;
+    if (getenv("REPLAY_ALARM_S") != NULL && atoi(getenv("REPLAY_ALARM_S")) > 0)
+        alarm_s = atoi(getenv("REPLAY_ALARM_S"));
+    signal(SIGALRM, on_alarm);
     if (argc != 5)
         die("usage: replay_udict udict|uref|urefc POOL MIN_SIZE EXTRA_SIZE", NULL);
     if (!strcmp(argv[1], "udict")) level = L_UDICT;
@@ -628,6 +645,7 @@ int main(int argc, char **argv)
         if (na == 0)
             continue;
         const char *op = a[0];
+        alarm(alarm_s);
         if (!strcmp(op, "reset") && na == 1) {
             mgrs_release();
             mgrs_alloc();
@@ -734,6 +752,7 @@ int main(int argc, char **argv)
         } else
             die("bad command", op);
         fflush(stdout);
+        alarm(0);
     }
     free(line);
     mgrs_release();
